@@ -3,9 +3,11 @@ package checks
 import (
 	"encoding/json"
 	"fmt"
+	"path/filepath"
 	"sort"
 	"strings"
 	"sync/atomic"
+	"syscall"
 	"time"
 
 	"verif/internal/core"
@@ -274,7 +276,7 @@ func runC08(env *core.Env) {
 		}
 	}
 	env.Logf("%d configurations", len(cfgs))
-	var evals, claims, nontrivial int64
+	var evals, claims, nontrivial, busyClaims int64
 	classes := newCounter()
 	samples := &sampleSet{max: 8}
 	conf := newConformer(len(cfgs)/250+1, 300)
@@ -387,6 +389,31 @@ func runC08(env *core.Env) {
 				fail("claim-not-oldest scope="+scopeName, fmt.Sprintf("claim returned %s, the oldest ready task is %s", rep.ID, want), []core.Req{req}, Assert{Kind: "out_lacks", Step: 1, Text: `"id":"` + want + `"`})
 			}
 		}
+		// "nothing is ready" is an answer about the ready set, not about the claimer's luck: while another process holds
+		// the store lock, claim must not say so when something is ready (one-task stores, plain history)
+		if len(c.Tasks) == 1 && c.Variant == 0 && c.ready(0) {
+			st.Materialize(w.Proj)
+			fd, err := syscall.Open(filepath.Join(w.Proj, ".ergo", "lock"), syscall.O_RDONLY, 0)
+			if err == nil && syscall.Flock(fd, syscall.LOCK_EX|syscall.LOCK_NB) == nil {
+				req := core.R(w.Proj, "--json", "claim", "--agent", "z")
+				res := w.Run(req)
+				syscall.Flock(fd, syscall.LOCK_UN)
+				atomic.AddInt64(&busyClaims, 1)
+				var rep struct{ Status string }
+				json.Unmarshal(res.Out, &rep)
+				if res.Exit == 0 && rep.Status == "no_ready" {
+					sig := "C08 kind=no-ready-answer-while-lock-busy"
+					if !env.ViolationSeen(sig) {
+						env.Violation(sig, c.String()+": with the store lock held by another process `ergo --json claim --agent z` exits 0 and says no_ready although T0 is ready: "+res.String(),
+							Trace{Kind: "trace", Store: st, Note: "the harness holds an exclusive flock on .ergo/lock while the step runs", Steps: []core.Req{{Cwd: ".", Args: []string{"--json", "claim", "--agent", "z"}, RandBase: -1, HoldLock: true}},
+								Shell: []string{"flock -x .ergo/lock sleep 5 & sleep 1; ergo --json claim --agent z"}, FailIf: []Assert{{Kind: "exit_zero", Step: 1}, {Kind: "out_contains", Step: 1, Text: "no_ready"}}})
+					}
+				}
+			}
+			if err == nil {
+				syscall.Close(fd)
+			}
+		}
 		if i%5000 == 0 {
 			samples.add(map[string]interface{}{"config": c.String(), "ready": keys(wantReady)})
 		}
@@ -398,7 +425,7 @@ func runC08(env *core.Env) {
 	env.Finish("model_checking", map[string]interface{}{
 		"states": evals, "transitions": claims + evals, "traces_validated_against_impl": validated,
 		"samples": samples.list, "exhaustive": int(done) == len(cfgs), "configurations": len(cfgs), "configurations_checked": done,
-		"claim_calls": claims, "configs_with_mixed_ready_sets": nontrivial, "distinct_flag_classes": classes.len(), "flag_classes": classes.snapshot(),
+		"claim_calls": claims, "claims_under_held_lock": busyClaims, "configs_with_mixed_ready_sets": nontrivial, "distinct_flag_classes": classes.len(), "flag_classes": classes.snapshot(),
 		"cli_built_cross_validated": xv, "three_epic_configurations": three, "unconfirmed_candidates": unconfirmed.Load(),
 		"history_variants": "each <=2-task configuration (thorough: every configuration) also reached via re-assignment from another epic, link+unlink noise on every non-edge, done->todo reopen, claim/unclaim churn, create events in reverse log order",
 		"bound":            "all stores with <=2 tasks (9 state/claim/pruned options x 3 memberships each, all acyclic dependency relations, 3 epic-dependency options, E2 optionally pruned) and 3 tasks (quick: 4 options x {root,E1}; thorough: 9 options x 3 memberships)",
